@@ -13,8 +13,9 @@
 //!   c04rt   -> [nbytes, bytes…, width, height, ice, then per cell of the RELOADED buffer: ch, shown fg rgb, bg rgb, blink]
 //!   c04ld   -> (args: <w> <h> <hexbytes>) the same observation for `Buffer::from_bytes("x.ans", bytes)` alone
 //!   c04shapes / c04num <digits>  -> leaf ties (glyph shapes of the default font, parse_next_number)
-//!   c04chk  -> the property's oracle evaluated here: [mismatches, width_src, height_src, width_dst, height_dst,
-//!              then for the first mismatch: x, y, src ch, fg, bg, blink, dst ch, fg, bg, blink, nbytes]
+//!   c04chk  -> the property's oracle evaluated here: [mismatches, width_src, height_src, width_dst, height_dst, nbytes,
+//!              the first three bytes of the file (-1 when shorter), then for the first mismatch:
+//!              x, y, src ch, fg, bg, blink, dst ch, fg, bg, blink]
 //! "shown fg" = palette colour of fg (+8 when the bold flag is set and fg < 8, as Buffer::render_to_rgba does),
 //! colours are packed r<<16|g<<8|b, everything is read with Buffer::get_char (what the screen shows).
 use crate::util::{int, unhex};
@@ -193,8 +194,11 @@ pub fn run(kind: &str, args: &[&str]) -> Option<Obs> {
             v.push(h as i64);
             v.push(b2.get_width() as i64);
             v.push(b2.get_height() as i64);
-            v.extend(first);
             v.push(bytes.len() as i64);
+            for i in 0..3 {
+                v.push(bytes.get(i).map_or(-1, |b| *b as i64));
+            }
+            v.extend(first);
         }
         // glyph shapes of the default font as ColorOptimizer sees them, observed through its effect:
         // 0 whitespace (foreground taken from the previous cell), 1 block (background taken), 2 mixed
